@@ -1,9 +1,166 @@
 import WM.Proto
-namespace WM.Drv.C18
-open WM.Proto
+import WM.Drv.C07
+/-!
+Protocol of family `c18`.
 
-/-- Protocol handler of family `c18` (requests arrive without the family token). -/
-def handle : List SExp → String
+`c18 serialmp <procs> <schema> <docs> <sessions>`: every session is written by a
+`SerialMpWriter(ix, procs=<procs>)`; ops as for `c07 run` plus `(gstart)` / `(gend)`
+(`start_group` / `end_group`).  Documents are dealt to the sub-writers round-robin, a group stays on
+one sub-writer; deletions and the deleting half of `update_document` act on the parent writer; the
+commit is `SerialMpWriter._commit` (`Writer.mpCommit`) when documents were added, the plain commit
+otherwise.  Answer: per session `(results toc model spec)` as for `c07 run 0`.
+
+`c18 buffered <limit> <kind> <schema> <docs> (<call> ...)`: the calls (`c07` ops, or `(commit)` for an
+explicit `BufferedWriter.commit()`) on the `Buffered` model (limit, commit policy `<kind>`), then
+`close()`.  Answer `(((result) (key ...)) ...) toc content`: after every call the keys the writer's
+own reader shows, finally the committed segment list and content.
+-/
+namespace WM.Drv.C18
+open WM.Proto WM.Proto.SExp WM.Dict WM.Index WM.Drv.C07
+
+inductive MOp where
+  | op (o : WM.Drv.C07.Op)
+  | gstart
+  | gend
+deriving Inhabited
+
+def mop? : SExp → Option MOp
+  | .list [.atom "gstart"] => some .gstart
+  | .list [.atom "gend"] => some .gend
+  | e => .op <$> op? e
+
+structure MpSt where
+  w : Writer
+  ss : Sess
+  subs : Array (List DocRec)
+  pointer : Nat
+  grouping : Nat
+  addedSub : Bool
+
+def subAdd (st : MpSt) (d : DocRec) : MpSt × String :=
+  if !d.fits st.w.schema then (st, showErr .unknownField) else
+  let subs := st.subs.modify st.pointer (fun l => l ++ [d])
+  let p := if st.grouping == 0 then (st.pointer + 1) % st.subs.size else st.pointer
+  ({ st with subs := subs, pointer := p, addedSub := true, ss := st.ss.add d }, "ok")
+
+def stepM (docs : Array DocRec) (st : MpSt) : MOp → MpSt × String
+  | .gstart => ({ st with grouping := st.grouping + 1 }, "-")
+  | .gend => ({ st with grouping := st.grouping - 1 }, "-")
+  | .op (.add i) =>
+    match docs[i]? with
+    | none => (st, "(err nodoc)")
+    | some d => subAdd st d
+  | .op (.upd i) =>
+    match docs[i]? with
+    | none => (st, "(err nodoc)")
+    | some d =>
+      -- IndexWriter.update_document: delete on the parent, then MpWriter.add_document
+      match st.w.deleteMany (findUnique st.w.schema st.w.segs (uniqTerms st.w.schema d)) with
+      | .error e => (st, showErr e)
+      | .ok w1 =>
+        subAdd { st with w := w1, ss := st.ss.deleteWhere (sharesUnique (uniqTerms st.ss.schema d)) } d
+  | .op o =>
+    match toOp docs o with
+    | none => (st, "(err nodoc)")
+    | some mo =>
+      let (w', out) := st.w.step mo
+      ({ st with w := w', ss := st.ss.step (st.w.specOp mo) }, showOutcome st.ss o out)
+
+def runM (docs : Array DocRec) : MpSt → List MOp → List String → MpSt × List String
+  | st, [], acc => (st, acc.reverse)
+  | st, o :: r, acc =>
+    let (st', s) := stepM docs st o
+    runM docs st' r (if s == "-" then acc else s :: acc)
+
+def runSessions (procs : Nat) (docs : Array DocRec) :
+    Toc → State → List (List MOp × End) → List String → List String
+  | _, _, [], acc => acc.reverse
+  | t, sp, (ops, e) :: rest, acc =>
+    let st0 : MpSt := { w := t.writer, ss := sp.open_, subs := Array.replicate procs [], pointer := 0,
+                        grouping := 0, addedSub := false }
+    let (st, res) := runM docs st0 ops []
+    match e with
+    | .cancel => runSessions procs docs t sp rest (showState 0 t sp res :: acc)
+    | .commit k =>
+      let r := if st.addedSub then
+          (st.subs.toList.mapM (subWriter st.w.schema)).bind fun subs => st.w.mpCommit subs k.plan
+        else st.w.commit k
+      match r with
+      | .error er => runSessions procs docs t sp rest (s!"({showList id res} {showErr er})" :: acc)
+      | .ok t' =>
+        let sp' := if k == .clear then st.ss.commitClear else st.ss.commit
+        runSessions procs docs t' sp' rest (showState 0 t' sp' res :: acc)
+
+def msession? : SExp → Option (List MOp × End)
+  | .list [ops, e] => do pure (← listOf? mop? ops, ← end? e)
+  | _ => none
+
+def handleSerial : List SExp → String
+  | [.atom "serialmp", procs, sc, docs, sess] =>
+    match procs.nat?, schema? sc, listOf? docRec? docs, listOf? msession? sess with
+    | some procs, some sc, some docs, some sess =>
+      if procs == 0 then "bad-op" else
+      let t : Toc := { schema := sc, segs := [], gen := 0 }
+      let sp : State := { schema := sc, docs := [] }
+      showList id (runSessions procs docs.toArray t sp sess [])
+    | _, _, _, _ => "bad-op"
+  | _ => "bad-op"
+
+/-- one call on the BufferedWriter model; `(commit)` is an explicit `BufferedWriter.commit()` -/
+def stepB (docs : Array DocRec) (b : Buffered) : SExp → Buffered × String
+  | .list [.atom "commit"] =>
+    match b.commit with
+    | .ok b' => (b', "ok")
+    | .error e => (b, showErr e)
+  | e =>
+    match op? e with
+    | none => (b, "bad")
+    | some (.add i) =>
+      match docs[i]? with
+      | none => (b, "(err nodoc)")
+      | some d => match b.addDocument d with
+        | .ok b' => (b', "ok")
+        | .error er => (b, showErr er)
+    | some (.upd i) =>
+      match docs[i]? with
+      | none => (b, "(err nodoc)")
+      | some d => match b.updateDocument d with
+        | (b', none) => (b', "ok")
+        | (b', some er) => (b', showErr er)
+    | some (.deld n) =>
+      match b.deleteDocument n with
+      | .ok b' => (b', "ok")
+      | .error er => (b, showErr er)
+    | some (.delq q) =>
+      match b.deleteByQuery (toQuery q) with
+      | .ok (b', c) => (b', s!"(count {c})")
+      | .error er => (b, showErr er)
+    | some _ => (b, "skip")
+
+def runB (docs : Array DocRec) : Buffered → List SExp → List String → Buffered × List String
+  | b, [], acc => (b, acc.reverse)
+  | b, o :: r, acc =>
+    let (b', s) := stepB docs b o
+    runB docs b' r (s!"({s} {showNatList (b'.content.map (·.key))})" :: acc)
+
+def handleB : List SExp → String
+  | [.atom "buffered", limit, kind, sc, docs, .list ops] =>
+    match limit.nat?, kind? kind, schema? sc, listOf? docRec? docs with
+    | some limit, some kind, some sc, some docs =>
+      let t : Toc := { schema := sc, segs := [], gen := 0 }
+      let b0 : Buffered := { writer := t.writer, ram := emptySeg, count := 0, limit := limit, plan := kind.plan }
+      let (b, res) := runB docs.toArray b0 ops []
+      match b.close with
+      | .error e => s!"({showList id res} {showErr e})"
+      | .ok t' => s!"({showList id res} {showList showSeg t'.segs} {showDocs t'.content})"
+    | _, _, _, _ => "bad-op"
+  | _ => "bad-op"
+
+
+def handle (args : List SExp) : String :=
+  match args with
+  | .atom "serialmp" :: _ => handleSerial args
+  | .atom "buffered" :: _ => handleB args
   | _ => "bad-op"
 
 end WM.Drv.C18
